@@ -244,6 +244,12 @@ func c18BuildClasses(c *engine.C) ([]*jg.Class, map[*jg.Class][]c18Method, jg.La
 		for mi := 0; mi < nm; mi++ {
 			shape := c18Returns[c.Choose(len(c18Returns), fmt.Sprintf("%sm%d-shape", pfx, mi))]
 			mname := fmt.Sprintf("op%d", mi)
+			switch c.Choose(3, fmt.Sprintf("%sm%d-name-style", pfx, mi)) {
+			case 1:
+				mname = fmt.Sprintf("getInstance%d", mi) // accessor-style names are methods like any other
+			case 2:
+				mname = fmt.Sprintf("settle%d", mi)
+			}
 			if mi > 0 && c.Bool(fmt.Sprintf("%sm%d-same-name-as-previous", pfx, mi)) {
 				mname = fmt.Sprintf("op%d", mi-1)
 				c.Tag("duplicate-method-name")
